@@ -756,3 +756,77 @@ def lane_to_term(e, lane):
     if k == "+":
         return S.add(lane_to_term(e[1], lane), lane_to_term(e[2], lane))
     return ("unk", "lane:%s" % (k,))
+
+
+# ------------------------------------------------------------------------------ floating-point lane kernels (.s files)
+def fp_kernel_eval(items, nargs=3):
+    """Lane-symbolic evaluation of a pointwise kernel over split real/imaginary arrays (the Lagrange kernels).
+    Pointer roles come from the prologue: load(argK,0) is the real base of operand K, lea(base, Ns2, 8) its imaginary
+    base.  Values are polynomials over the atoms  x{K}.re / x{K}.im  (exact real algebra: which products, which signs).
+    -> {"stores": {role: poly}, "problems": [...], "loop": {...}}"""
+    from . import sym as S
+    problems = []
+    # prologue
+    first_label = next((k for k, it in enumerate(items) if isinstance(it, tuple) and it[0] == "label"), len(items))
+    regs, loads = straightline_regs(items, upto=first_label, init=initial_args(nargs))
+    role = {}
+    for r, t in regs.items():
+        if isinstance(t, tuple) and t[0] == "load" and t[1][0] == "sym" and t[1][1].startswith("arg") and t[2] == 0:
+            role[r] = (int(t[1][1][3:]), "re")
+    for r, t in regs.items():
+        if isinstance(t, tuple) and t[0] == "ea" and t[3] is not None and t[4] == 8 and t[2] == 0:
+            b = t[1]
+            if isinstance(b, tuple) and b[0] == "load" and b[1][0] == "sym" and b[2] == 0:
+                role[r] = (int(b[1][1][3:]), "im")
+    end_alias = {}
+    for r, t in regs.items():
+        for r2, t2 in regs.items():
+            if r != r2 and t == t2 and r2 in role and r not in role:
+                end_alias[r] = r2
+    lps = loops_of(items)
+    if len(lps) != 1:
+        return {"stores": {}, "problems": ["expected one loop, found %d" % len(lps)], "loop": None}
+    lp = lps[0]
+    vec = {}
+    stores = {}
+    atom = lambda k, part: S.sym("x%d.%s" % (k, part))
+    for ins in lp["body"]:
+        op, a = ins.op, ins.args
+        if op in ("vmovupd", "vmovapd") and len(a) == 2:
+            if a[0][0] == "mem" and a[1][0] == "reg":
+                m = a[0]
+                if m[2] in role and m[1] == 0 and m[3] is None:
+                    vec[_vn(a[1][1])] = atom(*role[m[2]])
+                else:
+                    problems.append("load from an unresolved pointer: %s" % ins.raw)
+            elif a[0][0] == "reg" and a[1][0] == "mem":
+                m = a[1]
+                if m[2] in role and m[1] == 0 and m[3] is None:
+                    stores[role[m[2]]] = vec.get(_vn(a[0][1]), S.sym("?"))
+                else:
+                    problems.append("store through an unresolved pointer: %s" % ins.raw)
+        elif op in ("vmulpd", "vaddpd", "vsubpd") and len(a) == 3 and all(x[0] == "reg" for x in a):
+            s2 = vec.get(_vn(a[0][1]), S.sym("?" + a[0][1]))
+            s1 = vec.get(_vn(a[1][1]), S.sym("?" + a[1][1]))
+            dn = _vn(a[2][1])
+            vec[dn] = S.mul(s1, s2) if op == "vmulpd" else S.add(s1, s2) if op == "vaddpd" else S.sub(s1, s2)
+        elif op in ("vfmadd231pd", "vfmsub231pd", "vfnmadd231pd", "vfnmsub231pd") and len(a) == 3 and all(x[0] == "reg" for x in a):
+            s3 = vec.get(_vn(a[0][1]), S.sym("?" + a[0][1]))
+            s2 = vec.get(_vn(a[1][1]), S.sym("?" + a[1][1]))
+            dn = _vn(a[2][1])
+            d = vec.get(dn, S.sym("?" + a[2][1]))
+            prod = S.mul(s2, s3)
+            vec[dn] = {"vfmadd231pd": S.add(prod, d), "vfmsub231pd": S.sub(prod, d),
+                       "vfnmadd231pd": S.sub(d, prod), "vfnmsub231pd": S.neg(S.add(prod, d))}[op]
+        elif op in ("addq", "cmpq", "leaq") or op in JCC:
+            pass
+        else:
+            problems.append("instruction not modelled: %s" % ins.raw)
+    strides = pointer_strides(lp["body"])
+    cmpi = next((i for i in lp["body"] if i.op == "cmpq"), None)
+    loopinfo = {"strides": {role.get(r, r): s for r, s in strides.items()}, "bottom_tested": classify_loop(items, lp)["bottom_tested"]}
+    if cmpi is not None and cmpi.args[0][0] == "reg" and cmpi.args[1][0] == "reg":
+        endr, curr = cmpi.args[0][1], cmpi.args[1][1]
+        loopinfo["walk"] = role.get(curr)
+        loopinfo["end"] = role.get(end_alias.get(endr, endr))
+    return {"stores": stores, "problems": problems, "loop": loopinfo, "roles": role}
